@@ -18,6 +18,7 @@ func checkC19(c *Ctx, r *Report) {
 	c19Scan(c, r)
 	c19Positions(c, r)
 	c19Derived(c, r)
+	splitRootOnly(c, r, "C19.R2.split-root-only")
 	noOctetShortcut(c, r, "C19.R2.no-octet-shortcut")
 	scanExitsOnly(c, r, "C19.R1.scan-exits", []string{"NextLabel", "PrevLabel"}, "CountLabel, Split, CompareDomainName and IsSubDomain lose or invent a label boundary")
 	r.rule("C19.R3.equal-fold", 1, "equal() folds exactly A-Z, both operands alike, before comparing octets")
